@@ -153,7 +153,7 @@ package cbreaker
 //@   ensures {C18} next_check_a_full_period_from_now: calls(c.condition) == 1 ==> c.lastCheck == lastclock + c.checkPeriod
 
 //@ func (*CircuitBreaker).serve
-//@   props C05 C18 C20
+//@   props C05 C12 C18 C20
 //@   requires c.metrics != nil && c.next != nil
 //@   modifies everything
 //@   ensures handler_once: calls(c.next.ServeHTTP) == 1
